@@ -135,14 +135,7 @@ fn repeated_h<const N: usize>(cmax: u32) {
     assert!(sw.dc_low_bytes == 1 && sw.dc_high, "[C06] DC high for every pixel byte");
     if sw.probe_hit && sw.probe_idx >= 1 {
         let i = sw.probe_idx as usize - 1;
-        let mut r = i;
-        let mut t = 0;
-        while t < 8 {
-            if r >= N {
-                r -= N;
-            }
-            t += 1;
-        }
+        let r = i % N; // constant divisor
         assert!(sw.probe_byte == p[r] && sw.probe_dc, "[C06][C05][C19][C01] repeated pixel byte, no stale buffer content");
     }
     kani::cover!(count == cmax && len == LMAX - 1, "cover: max count, odd buffer");
